@@ -10,6 +10,7 @@ Objects are numbered; the kind of object number i is i % 3:
 """
 import gc
 import subprocess
+import weakref
 from collections import deque
 
 from common import COQ, parse_evals
@@ -104,9 +105,14 @@ def gen_history(rng, n_ops, n_ids):
         elif op[0] == "Remove":
             nt.remove(callback(op[1]))
         elif op[0] == "Kill":
+            # the objects of this harness are in no reference cycle: dropping the last reference frees them at once
+            # (a full gc.collect() per operation made the thorough tier take an hour)
+            wr = weakref.ref(pool[op[1]])
             del pool[op[1]]
             dead.add(op[1])
-            gc.collect()
+            if wr() is not None:
+                gc.collect()
+            assert wr() is None
         else:
             nt.notify()
         py = list(log)
@@ -138,7 +144,7 @@ def obslit(o):
 
 def run_notifier(ctx):
     rng = ctx.rng
-    n_hist = 300 if ctx.quick else 6000
+    n_hist = 300 if ctx.quick else 4000
     hists = []
     stats = {"ops": {}, "lengths": [], "notifies_with_dead_refs": 0, "calls": 0}
     for h in range(n_hist):
